@@ -313,7 +313,7 @@ def run_shard(shard, tier, seed):
             idx += 1
             # every colouring on every mapping (colour propagation is the delicate part), naming/labelling/orientation rotate
             for ci, colid in enumerate(cmenu):
-                labmode = ("none", "same", "losses", "gluey")[(idx + ci) % 4]
+                labmode = ("none", "same", "losses", "gluey", "repeat")[(idx + ci) % 5]
                 scheme = SCHEMES[(idx // 3 + ci) % 4]
                 orient = "VH"[(idx + ci) % 2]
                 rev = bool((idx // 2 + ci) % 2)      # mapping / synteny dicts written bottom-up on every other case
